@@ -189,14 +189,23 @@ theorem counters_exact (es : List LoopEvent) :
     l.counters.outbound = (l.conns.map fun c => c.d1.delivered.length).sum := by
   intro l
   have h : LInv l := LInv.foldl es {} LInv.init
+  have hp := foldl_step_pending es {}
+  have hin : l.counters.inbound = sumIn l.conns := by
+    have := h.inbound
+    have hp1 : l.pendingIn = 0 := hp.1
+    omega
+  have hout : l.counters.outbound = sumOut l.conns := by
+    have := h.outbound
+    have hp2 : l.pendingOut = 0 := hp.2
+    omega
   refine ⟨h.opened, h.total, ?_, ?_⟩
-  · rw [h.inbound, sumIn]
+  · rw [hin, sumIn]
     congr 1
     apply List.map_congr_left
     intro c hc
     obtain ⟨es', hes'⟩ := h.reach c hc
     exact hes'.d0.audited
-  · rw [h.outbound, sumOut]
+  · rw [hout, sumOut]
     congr 1
     apply List.map_congr_left
     intro c hc
@@ -241,6 +250,82 @@ theorem loop_connections_relay (es : List LoopEvent) :
   exact ⟨es', hi.d0.isPrefix, hi.d1.isPrefix, (key false _ hi.d0).1, (key true _ hi.d1).1,
     (key false _ hi.d0).2, (key true _ hi.d1).2⟩
 
+/-! ## Loop generations (teardown and restart of the forwarding loop) -/
+
+/-- **Every generation's statistics are its own.** Whatever the script —
+traffic, teardown/restart boundaries with destination writes still in flight,
+late returns of those writes —, for the current forwarding loop and for every
+earlier one: data totals plus the audits still pending for that loop equal the
+bytes accepted by the destinations of *that loop's own* connections, its total
+equals the connections it accepted, and its open count equals those of its
+connections whose forwarding has not returned. -/
+theorem generation_totals_exact (es : List CtlEvent) :
+    let c := es.foldl Ctl.step {}
+    ∀ g ∈ c.cur :: c.past,
+      g.counters.inbound + g.pendingIn = (g.conns.map fun x => x.d0.delivered.length).sum ∧
+      g.counters.outbound + g.pendingOut = (g.conns.map fun x => x.d1.delivered.length).sum ∧
+      g.counters.totalConnections = g.conns.length ∧
+      g.counters.openConnections = (openCount g.conns : Int) := by
+  intro c g hg
+  have hc : CInv c := CInv.foldl es {} CInv.init
+  have h : LInv g := by
+    simp only [List.mem_cons] at hg
+    rcases hg with rfl | hg
+    · exact hc.cur
+    · exact hc.past g hg
+  refine ⟨?_, ?_, h.total, h.opened⟩
+  · rw [h.inbound, sumIn]
+    congr 1
+    apply List.map_congr_left
+    intro x hx
+    obtain ⟨es', hes'⟩ := h.reach x hx
+    exact hes'.d0.audited
+  · rw [h.outbound, sumOut]
+    congr 1
+    apply List.map_congr_left
+    intro x hx
+    obtain ⟨es', hes'⟩ := h.reach x hx
+    exact hes'.d1.audited
+
+/-- Once every write in flight has returned (as at the end of each run of the
+harness), nothing is pending and the totals of every generation are exactly
+the bytes its own connections relayed. -/
+theorem generation_totals_settled (es : List CtlEvent) :
+    ∀ g ∈ (Ctl.run es).cur :: (Ctl.run es).past,
+      g.counters.inbound = (g.conns.map fun x => x.d0.delivered.length).sum ∧
+      g.counters.outbound = (g.conns.map fun x => x.d1.delivered.length).sum := by
+  intro g hg
+  have h := generation_totals_exact (es ++ [.release]) g (by simpa [Ctl.run, List.foldl_append] using hg)
+  have hp : g.pendingIn = 0 ∧ g.pendingOut = 0 := by
+    simp only [Ctl.run, Ctl.step, List.mem_cons, List.mem_map] at hg
+    rcases hg with rfl | ⟨g', _, rfl⟩ <;> exact release_pending _
+  obtain ⟨h1, h2, _, _⟩ := h
+  rw [hp.1] at h1; rw [hp.2] at h2
+  exact ⟨by simpa using h1, by simpa using h2⟩
+
+/-- **Audits of one generation never change the next generation's totals.**
+The current generation's state after any script is the same whatever earlier
+generations exist and whatever they still have pending; in particular, when
+the writes in flight return, the current totals grow by the current loop's own
+pending audits only. -/
+theorem generations_isolated (es : List CtlEvent) (c₁ c₂ : Ctl) (h : c₁.cur = c₂.cur) :
+    (es.foldl Ctl.step c₁).cur = (es.foldl Ctl.step c₂).cur :=
+  foldl_cur_congr es c₁ c₂ h
+
+theorem release_credits_own_generation (c : Ctl) :
+    (c.step .release).cur.counters.inbound = c.cur.counters.inbound + c.cur.pendingIn ∧
+    (c.step .release).cur.counters.outbound = c.cur.counters.outbound + c.cur.pendingOut ∧
+    (c.step .release).cur.counters.totalConnections = c.cur.counters.totalConnections ∧
+    (c.step .release).cur.counters.openConnections = c.cur.counters.openConnections :=
+  ⟨rfl, rfl, rfl, rfl⟩
+
+/-- A restart begins with an empty `State`: no connection, all counters zero,
+nothing pending — whatever the previous loop had in flight. -/
+theorem restart_starts_fresh (c : Ctl) (ws : List (Nat × Bool × List UInt8)) :
+    (c.step (.restart ws)).cur.conns = [] ∧ (c.step (.restart ws)).cur.counters = {} ∧
+    (c.step (.restart ws)).cur.pendingIn = 0 ∧ (c.step (.restart ws)).cur.pendingOut = 0 :=
+  ⟨rfl, rfl, rfl, rfl⟩
+
 /-! ## Non-vacuity -/
 
 /-- Interleaved fault-free traffic with both half-closes. -/
@@ -255,6 +340,16 @@ example :
 example :
     let c := Conn.run [.chunk true [7, 8, 9] 2 false, .chunk false [1] 1 false, .eof false]
     c.d1.delivered = [7, 8] ∧ c.d0.delivered = [] ∧ c.d0.closeWrites = 0 ∧ c.closedFirst = 1 := by
+  decide
+
+/-- A write of 4 bytes is in flight on the only connection when the loop is
+torn down; it returns after the new loop has accepted a connection and relayed
+10 bytes: the new loop reports 10 outbound bytes, the old one 4. -/
+example :
+    let c := Ctl.run [.loop .open, .restart [(0, true, [1, 2, 3, 4])], .loop .open,
+      .loop (.conn 0 (.chunk true [0, 1, 2, 3, 4, 5, 6, 7, 8, 9] 10 false))]
+    c.cur.counters.outbound = 10 ∧ c.cur.counters.totalConnections = 1 ∧
+      (c.past.map fun g => g.counters.outbound) = [4] := by
   decide
 
 end Mutagen.Properties.C33
